@@ -173,7 +173,6 @@ _STEPS = [
     f"c05c_cut_with('step3:closed-form-is-zero-on-alternatives-left-alone', {_DEF}, lambda: "
     f"forall(lambda x: implies({_IN_ALONE}, {_LNG('x')} == 0), ty='int'))",
     f"c05c_cut('step4:generating-terms-are-the-closed-form', lambda: {_TERMS_ARE_LNG})",
-    f"c05c_cut_with('PROBE:false', {_DEF}, lambda: 1 == 2)",
 ]
 
 
